@@ -24,7 +24,8 @@ MIXES = {
 MUTANTS = {
     "C04": [("LockMode", "first", "Opposite", "abcd", ["k1", "k2"], ["Linearizable", "NoSlashableAtt", "Monotone"]),
             ("LockMode", "none", "Surround", "abcd", ["k1"], ["Linearizable", "NoSlashableAtt", "NoDoubleProposal"]),
-            ("UnlockEarly", True, "Surround", "abcd", ["k1"], ["Linearizable", "NoSlashableAtt"])],
+            ("UnlockEarly", True, "Surround", "abcd", ["k1"], ["Linearizable", "NoSlashableAtt"]),
+            ("AbandonReleasesLocks", True, "Abandon", "abc", ["k1"], ["NoDoubleProposal"])],
     "C15": [("UsePreLock", False, "Opposite", "abcd", ["k1", "k2"], ["deadlock"]),
             ("UsePreLock", False, "Crossing", "abcd", ["k1", "k2", "k3"], ["deadlock"]),
             ("DupCheck", False, "Opposite", "abcd", ["k1", "k2"], ["deadlock"]),
@@ -35,7 +36,7 @@ MUTANTS = {
 def sconsts(mix, reqs, keys, crashes=0, faults=0, **over):
     c = dict(seqfamily.BASE)
     c.update(MaxI=3, Keys=set(keys), Reqs=set(reqs), Catalog=Raw("<- Cat" + mix), MaxCrashes=crashes, MaxFaults=faults, MaxCloses=0,
-             LockMode="all", UsePreLock=True, DupCheck=True, StoreBeforeSign=True, FaultIgnored=False, UnlockEarly=False, StoreMode="atomic", BusyDropsMap=False)
+             LockMode="all", UsePreLock=True, DupCheck=True, StoreBeforeSign=True, FaultIgnored=False, UnlockEarly=False, StoreMode="atomic", BusyDropsMap=False, AbandonReleasesLocks=False)
     c.update(over)
     return c
 
@@ -65,7 +66,7 @@ def model_phase(prop, tier, wd, info):
         for inv in expected:
             kw = dict(invariants=[inv], deadlock=False) if inv not in ("deadlock", "Monotone") else \
                 (dict(invariants=[], deadlock=True) if inv == "deadlock" else dict(invariants=[], properties=["Monotone"], deadlock=False))
-            rm = tlc("MCSigner", make_cfg(sconsts(mix, list(reqs), keys, **{name: val}), **kw), wd,
+            rm = tlc("MCSigner", make_cfg(sconsts(mix, list(reqs), keys, faults=1 if name == "AbandonReleasesLocks" else 0, **{name: val}), **kw), wd,
                      name="mut_%s_%s_%s_%s" % (name, val, mix, inv), timeout=600)
             if rm.error:
                 raise Inconclusive("mutant run %s=%s failed: %s" % (name, val, rm.error))
@@ -111,14 +112,16 @@ def lock_order_attacks(wd, info):
     return out
 
 
-def gen_behaviours(n, seed, wd, broken=None):
+def gen_behaviours(n, seed, wd, broken=None, catalog=None):
     """Random behaviours of the shipped design (broken=None) or of a broken design (attack schedules:
     e.g. LockMode="none" admits every interleaving of the fetch/check/store steps)."""
     c = sconsts("Opposite", list("abcd") if not broken else list("abc"), KEYS if not broken else KEYS[:2], **(broken or {}))
-    c["Catalog"] = Raw("<- SimCatalog") if not broken else Raw("<- ConflictCatalog")
+    c["Catalog"] = Raw("<- SimCatalog") if not broken else Raw("<- " + (catalog or "ConflictCatalog"))
+    if broken and "MaxFaults" in broken:
+        c["MaxFaults"] = broken["MaxFaults"]
     workers = min(NCPU, 8)
     r = tlc("SignerSim", make_cfg(c, spec="SimSpec", invariants=[] if broken else ["NoSlashableAtt", "Linearizable"]), wd,
-            name="SignerSim" + ("_broken" if broken else ""), workers=workers,
+            name="SignerSim" + ("_broken" if broken else "") + ("_" + catalog if catalog else ""), workers=workers,
             simulate="num=1", depth=max(200, int(n * 60 / workers)), seed=seed, timeout=900)
     if r.error or r.violated:
         raise Inconclusive("SignerSim failed: %s %s" % (r.error, r.violated))
@@ -164,6 +167,8 @@ def tokens_for(b):
             keys = [e["k"] for e in d["ents"]]
             for _ in keys:
                 toks.append(dict(r=r, site="unlock"))
+        elif a == "Abandon":
+            toks.append(dict(r=r, site="cancel"))      # the caller goes away: the request's context is cancelled
         elif a in ("Reply",):
             toks.append(dict(r=r, site="done"))
     return toks
@@ -375,6 +380,16 @@ def race_scenarios(prop, seed, wd, n, conc):
     shipped-design behaviours, imposed on the real code through the gates."""
     behs = gen_behaviours(n, seed + 11, wd, broken=dict(LockMode="none")) + gen_behaviours(n // 2, seed + 12, wd, broken=dict(LockMode="first")) + \
         gen_behaviours(n // 2, seed + 13, wd)
+    # a caller that goes away while the rules run (its context is cancelled): behaviours of the design in which the abandoned request's
+    # locks are let go while its evaluation carries on (any request mix), and the counterexample on the three-proposal mix
+    behs += gen_behaviours(n // 2, seed + 14, wd, broken=dict(AbandonReleasesLocks=True, MaxFaults=1), catalog="SimCatalog")
+    rm = tlc("MCSigner", make_cfg(sconsts("Abandon", list("abc"), ["k1"], faults=1, AbandonReleasesLocks=True), invariants=["NoDoubleProposal"], deadlock=False), wd,
+             name="mut_Abandon_race", timeout=600)
+    require_killed(rm, "AbandonReleasesLocks=TRUE", ["NoDoubleProposal"])
+    b_ = behaviour_from_trace(rm.trace)
+    if b_:
+        b_["origin"] = "mutant AbandonReleasesLocks=TRUE violating NoDoubleProposal"
+        behs.append(b_)
     scs = []
     for i, b in enumerate(behs):
         scs.append(scenario_for(b, "%s-race-%s%d" % (prop, "atk" if b["attack"] else "sim", i), conc))
